@@ -10,7 +10,77 @@ RULE = ("1-3 clients and an acceptor: listen/accept/connect/close in varying ord
         "with and without NAT; endpoint queries after every completion; non-trivial = at least 3 completions; distinct = distinct traces")
 TRUSTED = ["model: coq/Model/Sim.v acc_* / tcp_async_connect / sim_internal_connect (hand-written from src/acceptor.cpp, src/tcp_socket.cpp, src/simulation.cpp)"]
 ASSUMPTIONS = ["every route contains a queue"]
-generate = tcommon.generate_flavour("nat")
+from .ncommon import Net, A1
+
+
+def gen_backlog(rng, k):
+    """k clients connect while no accept is pending (backlog of 3..6), then the
+    acceptor hands them out one after another; every accepted socket is
+    identified by remote_endpoint() and by a byte the client sends."""
+    r = rng
+    n = r.choice([3, 3, 4, 5, 6])
+    nat = {r.choice(range(2, n + 2)): 0} if r.random() < 0.3 else None
+    net = Net(r, nnodes=n + 1, nat=nat, bw=r.choice([0, 800000]), lat=r.choice([0, 1000000, 30000000]))
+    L = list(net.lines)
+    port = 1337
+    ops = ["acc_new 1 1", "tcp_open 1 1", "tcp_bind 1 0 %d %d" % (r.choice([0, A1]), port),
+           "listen 1 %d" % r.choice([-1, 10, n, n - 1])]
+    H = {}
+    hid = [100]
+    def nh():
+        hid[0] += 1
+        return hid[0]
+    order = list(range(n))
+    r.shuffle(order)
+    t = 0
+    for j, c in enumerate(order):
+        s = 20 + c
+        node = 2 + c
+        h = nh()
+        ops.append("tcp_new %d %d" % (s, node))
+        if r.random() < 0.5:
+            ops += ["tcp_open %d 1" % s, "tcp_bind %d 0 %d %d" % (s, A1 + node - 1, 2000 + c)]
+        con = "tcp_connect %d 0 %d %d %d" % (s, A1, port, h)
+        t += r.choice([0, 1000, 100000000, 100000000])
+        if t == 0:
+            ops.append(con)
+        else:
+            ti = 60 + c
+            th = nh()
+            ops += ["expires_after %d %d" % (ti, t), "async_wait %d %d" % (ti, th)]
+            H[th] = [con]
+        wh = nh()
+        H[h] = ["tcp_rep %d" % s, "tcp_lep %d" % s, "tcp_write %d %d : %d 1" % (s, wh, 40 + c)]
+    # the accepts start late
+    style = r.choice(["accept", "accept_ep", "accept2"])
+    prev = None
+    first = nh()
+    cur = first
+    for j in range(n):
+        a = 40 + j
+        h = nh()
+        o = []
+        if style == "accept2":
+            o.append("accept2 1 %d %d" % (a, h))
+        else:
+            o += ["tcp_new %d 1" % a, "accept 1 %d %d %d" % (a, 1 if style == "accept_ep" else 0, h)]
+        H.setdefault(cur, []).extend(o)
+        rh = nh()
+        H[h] = ["tcp_rep %d" % a, "tcp_lep %d" % a, "tcp_read %d %d : 10" % (a, rh)]
+        cur = h
+    ops += ["expires_after 99 %d" % (t + r.choice([2000000000, 700000000])), "async_wait 99 %d" % first]
+    L += ["M " + o for o in ops]
+    for h in sorted(H):
+        L += ["H %d %s" % (h, o) for o in H[h]]
+    L.append("M run")
+    return L
+
+
+def generate(rng, tier):
+    base = tcommon.generate_flavour("nat")(rng, tier)
+    n = 25 if tier == "quick" else 600
+    return base + [("bl%d" % k, gen_backlog(rng, k)) for k in range(n)]
+
 classify = tcommon.classify
 nontrivial = tcommon.nontrivial
 
@@ -40,6 +110,28 @@ def oracle(lines, trace):
                     fails.append(("c07/connector-view", "connector dialled %s but remote_endpoint() says %s" % (dialled, rep[0]["ret"][1:4])))
             if h in comp and comp[h][1][0] == 3 and comp[h][0] <= e["t"]:
                 fails.append(("c07/refusal-delay", "connection_refused delivered without a positive delay"))
+    # backlog scenario: connections are handed out in arrival order
+    if any(l.startswith("M async_wait 99 ") for l in lines):
+        issue = {}
+        for e in ev:
+            if e["op"][0] == "tcp_connect":
+                issue[int(e["op"][1]) - 20] = e["t"]
+        who = {}
+        for c in issue:
+            who[ncommon.adler(ncommon.pat(40 + c, 1))] = c
+        got = []
+        for e in ev:
+            if e["op"][0] == "tcp_read" and 40 <= int(e["op"][1]) < 60:
+                h = int(e["op"][2])
+                if h in comp and comp[h][1][0] == 0 and comp[h][1][1] == 1 and comp[h][1][3] in who:
+                    got.append((int(e["op"][1]), who[comp[h][1][3]]))
+        got.sort()
+        for x in range(len(got)):
+            for y in range(x + 1, len(got)):
+                cx, cy = got[x][1], got[y][1]
+                if issue[cx] >= issue[cy] + 50000000:
+                    fails.append(("c07/accept-order", "accept #%d returned the client that connected at t=%d, accept #%d the one that connected at t=%d: not in arrival order" % (got[x][0] - 40, issue[cx], got[y][0] - 40, issue[cy])))
+        fails = fails[:1] if fails and fails[0][0] == "c07/accept-order" else fails
     # after acceptor::close() a later connect must be refused
     closes = [e for e in ev if e["op"][0] in ("acc_close0",) or (e["op"][0] == "tcp_close" and e["op"][1] == "1")]
     if closes:
